@@ -21,7 +21,7 @@ import typing
 import uuid
 from decimal import Decimal
 from fractions import Fraction
-from typing import Any
+from typing import Any, Optional
 
 # ---------------------------------------------------------------------------------------------
 # tokens: name -> list of representatives (python expressions evaluated once)
@@ -37,7 +37,8 @@ TOKENS: dict[str, list[str]] = {
     "i_huge": ["10**400", "10**1000"],
     "f0": ["0.0"], "f1": ["1.0"], "f_frac": ["1.5", "2.25"], "f_neg": ["-1.5", "-0.25"],
     "f_nan": ["float('nan')"], "f_inf": ["float('inf')", "float('-inf')"],
-    "s_empty": ["''"], "s_a": ["'abc'", "'x y'"], "s_int": ["'1'", "'42'"], "s_frac": ["'1.5'", "'2.25'"],
+    "s_empty": ["''"], "s_a": ["'abc'", "'x y'"], "s_int": ["'1'", "'42'"], "s_zero": ["'0'"], "s_frac": ["'1.5'", "'2.25'"],
+    "s_cx1": ["'(1+0j)'"], "s_cxp": ["'(1+2j)'"], "s_path": ["'a/b'"], "s_re": ["'a+'"],
     "s_ratio": ["'1/2'", "'3/4'"], "s_badratio": ["'1/0'"], "s_cx": ["'1+2j'"],
     "s_date": ["'2020-01-02'", "'1999-12-31'"], "s_time": ["'10:20:30'"], "s_dt": ["'2020-01-02T10:20:30'"],
     "s_uuid": ["'12345678-1234-5678-1234-567812345678'"], "s_b64": ["'YWJj'", "'AAEC'"], "s_badb64": ["'a'", "'abcde'"],
@@ -45,11 +46,13 @@ TOKENS: dict[str, list[str]] = {
     "d0": ["Decimal(0)"], "d1": ["Decimal(1)"], "d_frac": ["Decimal('1.5')", "Decimal('2.25')"], "d_nan": ["Decimal('NaN')"],
     "fr1": ["Fraction(1)"], "fr_half": ["Fraction(1, 2)", "Fraction(3, 4)"],
     "cx1": ["complex(1, 0)"], "cx_j": ["1+2j"],
-    "by_a": ["b'abc'", "b'\\x00\\x01'"], "ba_a": ["bytearray(b'abc')"],
-    "td": ["dtm.timedelta(seconds=90)", "dtm.timedelta(days=2, seconds=3)"],
-    "dt": ["dtm.datetime(2020, 1, 2, 10, 20, 30)"], "da": ["dtm.date(2020, 1, 2)"], "ti": ["dtm.time(10, 20, 30)"],
+    "by_a": ["b'abc'", "b'\\x00\\x01\\x02'"], "ba_a": ["bytearray(b'abc')"],
+    "f_secs": ["90.0", "172803.0"],
+    "td": ["dtm.timedelta(seconds=90)", "dtm.timedelta(days=2, seconds=3)"], "td_frac": ["dtm.timedelta(seconds=1.5)", "dtm.timedelta(seconds=2.25)"],
+    "td_neg": ["dtm.timedelta(seconds=-1.5)", "dtm.timedelta(seconds=-0.25)"],
+    "dt": ["dtm.datetime(2020, 1, 2, 10, 20, 30)"], "da": ["dtm.date(2020, 1, 2)", "dtm.date(1999, 12, 31)"], "ti": ["dtm.time(10, 20, 30)"],
     "uu": ["uuid.UUID('12345678-1234-5678-1234-567812345678')"], "pa": ["pathlib.Path('a/b')"],
-    "ip": ["ipaddress.IPv4Address('127.0.0.1')"], "pat": ["re.compile('a+')"],
+    "ip": ["ipaddress.IPv4Address('127.0.0.1')", "ipaddress.IPv4Address('10.0.0.1')"], "pat": ["re.compile('a+')"],
     "obj": ["object()"],
 }
 
@@ -100,6 +103,83 @@ CTORS: dict[str, Any] = {
     "IPv4Address": _str_only(ipaddress.IPv4Address), "re": _str_only(re.compile),
     "id": lambda x: x,
 }
+
+
+# the documented outer forms ("Dumping to" column and the per-type paragraphs)
+DUMPS: dict[str, Any] = {
+    "int": lambda x: x, "float": lambda x: x, "str": lambda x: x, "bool": lambda x: x, "None": lambda x: x, "Any": lambda x: x,
+    "Decimal": str, "Fraction": str, "complex": str,
+    "bytes": lambda x: base64.b64encode(x).decode("ascii"), "bytearray": lambda x: base64.b64encode(bytes(x)).decode("ascii"),
+    "date": lambda x: x.isoformat(), "time": lambda x: x.isoformat(), "datetime": lambda x: x.isoformat(),
+    "timedelta": lambda x: x.total_seconds(), "UUID": str, "IPv4Address": str, "Path": lambda x: x.__fspath__(),
+    "Pattern": lambda x: x.pattern,
+}
+# python type (name) of the values of each scalar kind
+VALUE_PYTYPE = {"int": "int", "float": "float", "str": "str", "bool": "bool", "None": "NoneType", "Decimal": "Decimal",
+                "Fraction": "Fraction", "complex": "complex", "bytes": "bytes", "bytearray": "bytearray", "date": "date",
+                "time": "time", "datetime": "datetime", "timedelta": "timedelta", "UUID": "UUID", "IPv4Address": "IPv4Address",
+                "Path": "PosixPath", "Pattern": "Pattern"}
+# which constructor (CTORS key) the loader of a scalar kind applies
+KIND_CTOR = {"int": "int", "float": "float", "str": "str", "bool": "bool", "Decimal": "Decimal", "Fraction": "Fraction",
+             "complex": "complex", "None": "id", "Any": "id", "bytes": "b64", "bytearray": "b64ba", "date": "date", "time": "time",
+             "datetime": "datetime", "timedelta": "timedelta", "UUID": "UUID", "Path": "Path", "IPv4Address": "IPv4Address",
+             "Pattern": "re"}
+
+
+def typed_same(a: Any, b: Any) -> bool:
+    if type(a) is not type(b):
+        return False
+    if isinstance(a, re.Pattern):
+        return a.pattern == b.pattern and a.flags == b.flags
+    if a != a and b != b:  # noqa: PLR0124
+        return True
+    if isinstance(a, Decimal) and a.is_nan() and b.is_nan():
+        return True
+    try:
+        return bool(a == b)
+    except Exception:  # noqa: BLE001
+        return False
+
+
+def token_of(value: Any, k: int) -> Optional[str]:
+    """the token whose k-th representative is (typed-)equal to value"""
+    for t in TOKENS:
+        if t == "obj":
+            continue
+        if typed_same(rep(t, k), value):
+            return t
+    return None
+
+
+def dump_table() -> dict[str, dict[str, str]]:
+    """DumpTok[kind][value token] = token of the documented outer form ('?' = outside the universe)"""
+    out: dict[str, dict[str, str]] = {}
+    for kind, f in DUMPS.items():
+        if kind == "Any":
+            continue
+        row = {}
+        for t in TOKENS:
+            if pytype(rep(t)) != VALUE_PYTYPE[kind]:
+                continue
+            tok = token_of(f(rep(t, 0)), 0)          # class-level fact, stated on the primary representatives
+            row[t] = tok if tok is not None else "?"
+        out[kind] = row
+    return out
+
+
+def ctor_table() -> dict[str, dict[str, str]]:
+    """CtorTok[ctor][token] = token of the constructed value when it lies in the universe (for all representatives)"""
+    out: dict[str, dict[str, str]] = {}
+    for c, f in CTORS.items():
+        row = {}
+        for t in TOKENS:
+            if not ctor_ok(c, rep(t)):
+                continue
+            tok = token_of(f(rep(t, 0)), 0)          # primary representatives
+            if tok is not None:
+                row[t] = tok
+        out[c] = row
+    return out
 
 
 def ctor_ok(ctor: str, value: Any) -> bool:
@@ -177,7 +257,7 @@ def axioms_tla() -> str:
         "(* GENERATED by vf/univ.py from CPython itself: facts about Python, not about adaptix.  *)",
         "(* Tokens are classes of concrete Python values on which every documented rule is       *)",
         "(* constant; representatives are listed in vf/univ.py:TOKENS.                           *)",
-        "EXTENDS Naturals, Sequences, FiniteSets",
+        "EXTENDS Naturals, Sequences, FiniteSets, TLC",
         "Tokens == {" + ", ".join(f'"{t}"' for t in toks) + "}",
         "PyTypeOf == " + fn({t: f'"{pytype(rep(t))}"' for t in toks}),
         "EqClass == " + fn({t: str(eqc[t]) for t in toks}),
@@ -187,6 +267,17 @@ def axioms_tla() -> str:
     okset = {c: [t for t in toks if ctor_ok(c, rep(t))] for c in CTORS}
     lines.append("CtorAccepts == [c \\in Ctors |-> CASE " + " [] ".join(
         f'c = "{c}" -> {{' + ", ".join(f'"{t}"' for t in ts) + "}" for c, ts in okset.items()) + "]")
+    dt = dump_table()
+    lines.append("\\* documented outer form of a value token, as a token ('?' = not in the universe)")
+    lines.append("DumpKinds == {" + ", ".join(f'"{k}"' for k in dt) + "}")
+    lines.append("DumpTok == [k \\in DumpKinds |-> CASE " + " [] ".join(
+        f'k = "{k}" -> (' + (" @@ ".join(f'"{t}" :> "{u}"' for t, u in row.items()) or "<<>>") + ")" for k, row in dt.items()) + "]")
+    ct = ctor_table()
+    lines.append("\\* value a constructor builds from a token, as a token (defined only where it lies in the universe)")
+    lines.append("CtorTok == [c \\in Ctors |-> CASE " + " [] ".join(
+        f'c = "{c}" -> (' + (" @@ ".join(f'"{t}" :> "{u}"' for t, u in row.items()) or "<<>>") + ")" for c, row in ct.items()) + "]")
+    lines.append("KindCtor == [k \\in DumpKinds \\cup {\"Any\"} |-> CASE " + " [] ".join(f'k = "{k}" -> "{c}"' for k, c in KIND_CTOR.items()) + "]")
+    lines.append("ValuePyType == [k \\in DumpKinds |-> CASE " + " [] ".join(f'k = "{k}" -> "{c}"' for k, c in VALUE_PYTYPE.items()) + "]")
     lines.append("=======================================================================================")
     return "\n".join(lines) + "\n"
 
